@@ -31,7 +31,10 @@ def contract_case(draw, include_slow=False):
     paths = _classes()
     if not include_slow:
         paths = [p for p in paths if allsolvers.SLOW.get(p, 0) < 10]
-    path = draw(st.sampled_from(paths))
+    # balance over problem packages first (74 of the 120 classes are Coggeshall variants), then over the classes of the package
+    pk = sorted(set(p.split('.')[2] for p in paths))
+    pkg = draw(st.sampled_from(pk))
+    path = draw(st.sampled_from([p for p in paths if p.split('.')[2] == pkg]))
     u = draw(st.lists(uni(0.0, 0.999), min_size=16, max_size=16))
     return dict(solver=path, u=u, container=draw(st.sampled_from(['ndarray', 'list', 'tuple', 'list-of-tuples'])), perm_seed=draw(st.integers(0, 10 ** 6)))
 
@@ -166,7 +169,9 @@ def check_contract(case):
 
 @st.composite
 def ctor_case(draw):
-    path = draw(st.sampled_from(_classes()))
+    paths = _classes()
+    pkg = draw(st.sampled_from(sorted(set(p.split('.')[2] for p in paths))))
+    path = draw(st.sampled_from([p for p in paths if p.split('.')[2] == pkg]))
     bad = draw(st.sampled_from(['not_a_parameter', 'gama', 'Geometry', 'rho_zero', 'verbosity']))
     return dict(solver=path, bad=bad, u=[0.5] * 16)
 
